@@ -3,15 +3,24 @@ PROPS_FILE = "Props_C14.v"
 RULE = ("random histories of Register calls over a small identity pool (so re-lookups, collisions and "
         "re-registrations are frequent); every second history keeps the callers' discipline incl. the router-level one "
         "(router queries name unit ids as parent, peer queries never do); a case is non-trivial when it contains a find-or-register that "
-        "re-finds an earlier id or an update of an existing entry; distinct = distinct case text")
+        "re-finds an earlier id or an update of an existing entry; distinct = distinct case text. Engine c14u: random sequences of the units' "
+        "registration / lookup sites on one register (table dumps, update and state-change files through the real mrt-file-in unit, BMP Peer Ups "
+        "through the real state machine, router / BGP-session registrations, entries filed directly, descriptive updates) over 5 peers and 3 routers; "
+        "3 of 4 cases keep the discipline of C14_site_refound_unique (no re-dump of a peer that has an id); non-trivial when a lookup uses an id handed out earlier")
 TRUSTED_BASE = [
     "Coq 8.16.1 kernel (coqc; coqchk in thorough); no native_compute",
     "extraction with ExtrOcamlBasic only; OCaml driver oracle/{conv,eng_c14,oracle}.ml",
     "Rust harness /verif/harness (engine c14) over rotonda::verif::ingress (feature verif-hooks)",
     "modelled, not verified: src/ingress.rs Register; AtomicU32::fetch_add and RwLock make each method one atomic step",
+    "Rust harness engine c14u: the real mrt-file-in unit (verif_start: queue, MrtInRunner::run, process_file) on MRT files written by c16's encoders, "
+    "the real BMP state machine (rotonda::verif::bmp::Session: Initiation, Peer Up -> add_peer_config); the accept loops' two register calls "
+    "(bmp router, bgp session) are made by the harness (the bmp accept loop runs for real in engine e2e)",
+    "the table IngressSitesModel.code_sites is read off the code (anchors in the file) and compared with it by engine c14u (ids used, fields stored)",
 ]
 ASSUMPTIONS = [
-    "each Register method is atomic (single fetch_add, or whole body under the RwLock), so sequential histories cover all interleavings of calls",
+    "each Register method is atomic (single fetch_add, or whole body under the RwLock), so sequential histories cover all interleavings of calls; "
+    "for update_info this is a theorem about a small-step model with per-thread programs (C14_update_is_atomic) whose one-step body is tied to the code by "
+    "engine c14 (sequentially) and by the thread stage c14-merge; that the body really runs under one write lock is read off src/ingress.rs",
     "HashMap iteration order is arbitrary: list answers are compared as sets, first-match answers against the candidate set",
     "the composite find-or-register of the callers is not atomic; stability is proved for sequential composites",
 ]
@@ -327,9 +336,12 @@ TRUSTED_BASE.append(E2E_TRUSTED)
 EXTRAS = [race, contend, merge]
 
 LEVEL_TEXT = ("Theorems over all call histories of the Register model (freshness below the u32 bound, wrap-around shown sharp, "
-              "lookup stability of peers and of routers under the callers' discipline, children-exactness, field-wise merge), kernel-checked, axiom-free; "
+              "lookup stability of peers and of routers under the callers' discipline, children-exactness, field-wise merge), over all interleavings of "
+              "update_info calls (linearizable, own fields kept; the two-step variant refuted) and over all histories of the units' registration / lookup sites "
+              "(a source filed by a site is found by every site of its class; the only candidate at peer level), kernel-checked, axiom-free; "
               "model tied to src/ingress.rs by differential execution of thousands of generated histories on every run.")
 DESIGN_REF = "DESIGN.md section 6, C14"
 LEVEL_NOTE = ("Trusted: Coq kernel, ExtrOcamlBasic extraction + OCaml driver, Rust harness and generators; atomicity of each Register method "
-              "(fetch_add / RwLock) is assumed; a 16-thread register race, and readers (ids_for_parent, get) against a held write lock and against concurrent update_info callers, are run as supporting exploration only.")
+              "(fetch_add / RwLock) is assumed; a 16-thread register race, readers (ids_for_parent, get) against a held write lock and against concurrent update_info callers, "
+              "and five threads updating disjoint fields of the same ids are run as supporting exploration only.")
 TECHNIQUE = "Coq proof by invariant over operation histories + model/implementation correspondence"
